@@ -104,7 +104,7 @@ def _build():
         p = one(rng, f"ix{t}")
         if p is not None:
             procs.append(p)
-    seed = os.environ.get("VERIF_SEED", "0")
+    seed = os.environ.get("VERIF_EFF_SEED", "0")
     rng2 = random.Random("indexgen-extra-" + seed)
     for t in range(N_EXTRA):
         p = one(rng2, f"ixs{t}")
